@@ -21,6 +21,10 @@ Definition run (v : val) : val :=
   | VL [VN 2; uris; VB key] =>
       match contains_key (caps_of (unVBs uris)) key with
       | Ok b => VL [VN 0; vbool b] | KeyError => VL [VN 1] | Crash e => VL [VN 2; VN e] end
+  | VL [VN 4; uris; VL ops; VB key] =>            (* ops: VL [VN 0; VB u] add | VL [VN 1; VB u] remove *)
+      let dec o := match o with VL [VN 0; VB u] => OAdd u | VL [VN 1; VB u] => ORemove u | _ => OAdd [] end in
+      match getitem (caps_after (unVBs uris) (map dec ops)) key with
+      | Ok c => enc_cap c | KeyError => VL [VN 1] | Crash e => VL [VN 2; VN e] end
   | VL [VN 3; VB uri] =>
       match abbreviate uri with
       | Ok l => VL [VN 0; VL (map VB l)] | KeyError => VL [VN 1] | Crash e => VL [VN 2; VN e] end
